@@ -297,8 +297,8 @@ def candidate_positions(lines):
     out = []
     for i, l in enumerate(lines):
         c = len(l) - len(l.lstrip())
-        if c < len(l):
-            out.append((i, c))
+        if c < len(l) or l.strip(' \t'):
+            out.append((i, c))  # also the end of a line of odd white space (after a description it is "the instruction")
         for j, ch in enumerate(l):
             if ch == '`':
                 rest = l[j + 1:]
@@ -348,6 +348,7 @@ BAD_HEADERS = ['[setup', '[setup] x', '[ setup ]', '[]', '[-x]', '[setup]]', '[a
 COMMENTS = ['# comment', '  # c', '#', '\t#x [setup]', '#including a.xly']
 BLANKS = ['', ' ', '\t', '  \t']
 ACT_LINES = ['$ echo ATCOUT', 'plain text', 'including a.xly', '`x`', '  indented', 'x [act]']
+ODD_SPACE = ['\x0c', ' \x0c', '\x0b\t', '\x1c']  # str.isspace() but not [ \t]*: not a blank line for the syntax
 ESCAPED = ['\\[setup]', '  \\[act]', '\\\\x', ' \\\\[x', '\\x', '\\[']
 
 
@@ -416,11 +417,16 @@ class Gen:
             return [r.choice(ACT_LINES)], ph
         if k == 'E':
             return [r.choice(ESCAPED)], ph
+        if k == 'WS':
+            return [r.choice(ODD_SPACE)], ph
         if k == 'INC':
             tok = r.choice(inc_tokens) if inc_tokens else 'missing.xly'
             return [r.choice(['including %s', 'including %s', '  including   %s  ', 'including\t%s']) % tok], ph
         if k == 'X':
-            j = r.below(8)
+            j = r.below(9)
+            if j == 8:
+                # an argument error reported after part of a continuation line was consumed (truncated last line)
+                return ['file f%d =' % self.n, ' -contents-of -rel-xx y'], ph
             if j == 0:
                 return ['no-such-instruction arg'], ph
             if j == 1:
@@ -440,7 +446,7 @@ class Gen:
 
     def symbols(self):
         return [(('H', s), 3) for s in SECS] + [(('HU',), 1), (('HB',), 1), (('C',), 4), (('B',), 4), (('I1',), 10),
-                                                (('IM',), 4), (('ID',), 4), (('A',), 3), (('E',), 2), (('INC',), 5), (('X',), 2)]
+                                                (('IM',), 4), (('ID',), 4), (('A',), 3), (('E',), 2), (('INC',), 5), (('X',), 2), (('WS',), 1)]
 
     def document(self, n_syms, inc_tokens, start_ph='act', error_free=False):
         r = self.rng
@@ -662,11 +668,53 @@ def pscase_term(s, ops, obs):
     return '(PsCase %s %s %s)' % (ctext(s), clist([c_op(o) for o in ops]), clist([c_o(o) for o in obs]))
 
 
+# ---- line classification -----------------------------------------------------------------------------------
+H_ALPHABET = '[]]ab_-. \t1#\\`\x0c[setup'
+
+
+def gen_hline(rng):
+    q = rng.below(10)
+    if q < 2:
+        inner = rng.choice(SECS + ['a b', 'x-y', 'a.b', 'a ', ' a', 'a.', '_', 'a#b', 'A1', '', 'a]b'])
+        return rng.choice(['', ' ', '\t']) + '[' + inner + rng.choice([']', ']', '] ', ']x', '', ']]'])
+    return ''.join(rng.choice(H_ALPHABET) for _ in range(rng.randint(0, 9)))
+
+
+def observe_hline(line):
+    from exactly_lib.section_document import syntax
+    from exactly_lib.processing.parse import act_phase_source_parser as ap
+    header = syntax.is_section_header_line(line)
+    name = None
+    if header:
+        try:
+            name = syntax.extract_section_name_from_section_line(line)
+        except ValueError:
+            name = None
+        if name not in SECS:
+            name = None  # malformed and unknown headers are both errors; only a phase name is compared
+    return (syntax.is_empty_line(line), syntax.is_comment_line(line), header, name, ap._un_escape(line), line.split())
+
+
+def hcase_term(line, o):
+    return '(HCase %s %s %s %s %s %s %s)' % (ctext(line), cbool(o[0]), cbool(o[1]), cbool(o[2]), copt(o[3], ctext), ctext(o[4]),
+                                             c_lines(o[5]))
+
+
 # =============================================================================================
 # Known findings
 # =============================================================================================
-def finding_for(case):
+def finding_for(files, o):
+    """no open finding of C07 (FIX-C07-1, commit 79a014d, repaired the only one; its input stays in the corpus)"""
     return None
+
+
+def decode_coq(term):
+    """make a printed Coq term readable: lists of code points -> Python string literals"""
+    import re
+
+    def rep(m):
+        return repr(''.join(chr(int(x)) for x in m.group(1).split(';')))
+    return re.sub(r'\[((?:\d+\s*;\s*)*\d+)\]', rep, term.replace('%N', '')).replace('[]', "''")
 
 
 # =============================================================================================
@@ -700,7 +748,7 @@ def describe(files, links, o):
     if o[0] == 'ok':
         d['observed'] = {s: [{'type': e[0], 'first_line': e[1][0], 'lines': e[1][1], 'file': e[2],
                               'included_via': [[l[0], l[1][0], l[1][1][0]] for l in e[3]]} for e in es]
-                         for s, es in o[1].items() if es}
+                         for s, es in o[1].items()}
     else:
         d['observed_error'] = list(o)
     return d
@@ -709,10 +757,10 @@ def describe(files, links, o):
 def run(ctx, res, scale=1):
     rng = ctx.rng
     quick = ctx.quick
-    n_random = (2500 if quick else 40000) * scale
+    n_random = (2500 if quick else 25000) * scale
     ex_len = 2 if quick else 3
-    n_perm = (250 if quick else 2500) * scale
-    n_ps = (3000 if quick else 40000) * scale
+    n_perm = (250 if quick else 1500) * scale
+    n_ps = (3000 if quick else 30000) * scale
     scratch_root = tempfile.mkdtemp(prefix='c07-', dir=ctx.work)
     scratch = os.path.join(scratch_root, 'd')
     im = Impl()
@@ -805,23 +853,38 @@ def run(ctx, res, scale=1):
         res.count('ParseSource operation sequences')
         if s.count('\n') >= 2 and len(obs) >= 3 and obs[-1] is not None:
             res.nontrivial.add(('ps', s, tuple(ops)))
+    # line classification
+    hterms, hmeta = [], []
+    for _ in range((2000 if quick else 20000) * scale):
+        line = gen_hline(rng)
+        o = observe_hline(line)
+        hterms.append(hcase_term(line, o))
+        hmeta.append((line, o))
+        res.count('line classification cases')
     shutil.rmtree(scratch_root, ignore_errors=True)
     import time
     res.extra['seconds_generating_and_running_implementation'] = round(time.time() - ctx.t0, 1)
 
-    res.evaluations = len(dterms) + len(pterms) + len(psterms)
+    res.evaluations = len(dterms) + len(pterms) + len(psterms) + len(hterms)
     res.samples = [describe(*dmeta[min(len(dmeta) - 1, 700 + k)]) for k in range(3)] + \
                   [{'blocks': pmeta[0][0][ROOT], 'permuted': pmeta[0][1][ROOT], 'verdicts': [pmeta[0][4][0], pmeta[0][5][0]]}] if pmeta else []
 
     cb, pb, errs = common.run_shards('C07', IMPORTS, 'check_dcase', dterms, shard_size=120, tag='dcases')
     res.errors += errs
+    expected = {}
+    if pb:
+        outs, _raw = common.coq_eval_terms('C07', IMPORTS, ['spec_obs %s' % dterms[i] for i in pb[:5]], tag='expected')
+        for i, t in zip(pb[:5], outs or []):
+            expected[i] = decode_coq(t)
     for i in pb:
         files, links, o = dmeta[i]
         case = describe(files, links, o)
+        if i in expected:
+            case['expected_by_declarative_reading'] = expected[i]
         res.prop_failures.append(Failure('property', case,
                                          'the observed per-phase contents / error differ from the declarative reading of the '
                                          'files (Spec.C07.flat_root), or an observed element / error report is not located '
-                                         'at the lines of the file it names', finding=finding_for(case)))
+                                         'at the lines of the file it names', finding=finding_for(files, o)))
     for i in cb:
         files, links, o = dmeta[i]
         res.disagreements.append(Failure('correspondence', describe(files, links, o),
@@ -850,6 +913,16 @@ def run(ctx, res, scale=1):
         s, ops, obs = psmeta[i]
         res.disagreements.append(Failure('correspondence', {'parse_source': s, 'operations': ops, 'observed_states': obs},
                                          'Model.Doc.ps_* differs from ParseSource'))
+    cb, pb, errs = common.run_shards('C07', IMPORTS, 'check_hcase', hterms, shard_size=400, tag='hcases')
+    res.errors += errs
+    for i in pb:
+        line, o = hmeta[i]
+        res.prop_failures.append(Failure('property', {'line': line, 'observed': list(o)},
+                                         'a line is accepted as the header of a phase although it is not [NAME] (apart from surrounding blanks/tabs), or [NAME] is not accepted'))
+    for i in cb:
+        line, o = hmeta[i]
+        res.disagreements.append(Failure('correspondence', {'line': line, 'observed (empty, comment, header, phase, un-escaped, split)': list(o)},
+                                         'Model.Doc line classification / section name / un_escape / split_ws differs from syntax.py, _un_escape, str.split'))
 
 
 def search(ctx, res):
@@ -870,7 +943,7 @@ def replay(ctx, payload):
         o = observe(im, disk)
         print('observed now:', json.dumps(describe(case['files'], case.get('symlinks'), o), indent=1, default=str))
         out, raw = common.coq_eval_terms('C07', IMPORTS, ['let c := %s in (model_obs c, check_dcase c)' % dcase_term(im, disk, o)])
-        print('model / check:', out if out else raw[-2000:])
+        print('model / check:', [decode_coq(x) for x in out] if out else raw[-2000:])
         shutil.rmtree(scratch_root, ignore_errors=True)
     elif case and 'parse_source' in case:
         im = Impl()
